@@ -2,6 +2,7 @@ package worlds
 
 import (
 	"fmt"
+	"io"
 	"math"
 	"strings"
 	"time"
@@ -106,6 +107,26 @@ func (m *sModel) String() string {
 		p = append(p, x.String())
 	}
 	return "Level{" + strings.Join(p, ",") + "}"
+}
+
+// c13Derive: the sampler stays with a logger through every later derivation step
+// (re-targeting with Output, adding context, hooks, a level that lets the same events
+// through).
+func c13Derive(ch *zsim.Choices, lg zerolog.Logger, w io.Writer) zerolog.Logger {
+	for n := ch.Weighted(3, 2, 1); n > 0; n-- {
+		switch ch.Intn(4) {
+		case 0:
+			lg = lg.Output(w)
+		case 1:
+			lg = lg.With().Str("d", "x").Logger()
+		case 2:
+			lg = lg.Hook(zerolog.HookFunc(func(e *zerolog.Event, l zerolog.Level, m string) {}))
+		case 3:
+			lg = lg.Level(lg.GetLevel())
+		}
+		zsim.Probe("sampled_logger_derived")
+	}
+	return lg
 }
 
 func zsimProbe13() { zsim.Probe("huge_burst") }
@@ -246,7 +267,7 @@ func c13Concurrent(ch *zsim.Choices, trace bool) *RunResult {
 		n = []uint32{2, 0, 1, 3, 5, 8}[ch.Intn(6)]
 		cs = &countingSampler{inner: &zerolog.BasicSampler{N: n}, tick: &tick, directBy: map[int]bool{}}
 		lgLevel := []zerolog.Level{zerolog.InfoLevel, zerolog.DebugLevel}[ch.Intn(2)]
-		lg := zerolog.New(sink).Level(lgLevel).Sample(cs)
+		lg := c13Derive(ch, zerolog.New(sink).Level(lgLevel).Sample(cs), sink)
 		s.ArmDraw([]string{"sampler.go", "log.go", "globals.go"})
 		nTasks := 2 + ch.Intn(4)
 		phases := 1 + ch.Weighted(2, 1, 1)
@@ -418,7 +439,7 @@ func c13Sequential(ch *zsim.Choices, trace bool) *RunResult {
 		smp, model := genSampler(ch, 0)
 		sink := &c13Sink{got: map[string]int{}}
 		lgLevel := []zerolog.Level{zerolog.TraceLevel, zerolog.InfoLevel}[ch.Intn(2)]
-		lg := zerolog.New(sink).Level(lgLevel).Sample(smp)
+		lg := c13Derive(ch, zerolog.New(sink).Level(lgLevel).Sample(smp), sink)
 		calls := 5 + ch.Intn(36)
 		summary = fmt.Sprintf("mode=sequential sampler=%v calls=%d logger-level=%v", model, calls, lgLevel)
 		zsim.Log("config: %s", summary)
